@@ -111,6 +111,8 @@ DECLARATIONS IN THE SIGNATURE (7th component, a dict, and the `locals` dict) —
   locals {"x": "list[float]"}              element type of a list created empty (`x = []`) and needed before its first append
   locals {"x": "unbound[float]"}           x may be read before it is assigned (bound only in a branch / a loop body)
   {"assume_identity": ["listify"]}         on a list argument the call returns the argument itself (tracklib's `listify`)
+  {"assume_noop": ["Obs.__check_call_geom1"]}   a call statement of this function returns normally and has no effect (an
+                                           argument check that only raises for classes outside the declared ones)
   {"imports": {"f": "util/geometry.py"}}   the name f, which this file binds by exactly one `from … import f` and nowhere else at
                                            module level, IS the whitelisted function f of that file (cross-file call; the generated
                                            module imports the other generated module and calls `TV.Gen.<Module>.f`)
@@ -145,6 +147,7 @@ WHITELIST = [
     ("core/obs_time.py", "ObsTime.isLeapYear", "isLeapYear", {"year": "int"}, "bool", {}),
     ("core/obs_time.py", "ObsTime.readUnixTime", "ObsTime_readUnixTime", {"elapsed_seconds": "float"}, "object[ObsTime]",
      {"sec": "int", "year": "int", "month": "int"}),
+    ("core/obs_time.py", "ObsTime.__sub__", "ObsTime_sub", {"self": {"toAbsTime()": "float"}, "time": {"toAbsTime()": "float"}}, "float", {}),
     ("core/obs_time.py", "ObsTime.toAbsTime", "ObsTime_toAbsTime",
      {"self": {"year": "int", "month": "int", "day": "int", "hour": "int", "min": "int", "sec": "int", "ms": "int"}}, "float",
      {"seconds": "int"}),
@@ -168,6 +171,11 @@ WHITELIST = [
     ("core/obs_coords.py", "ENUCoords.__sub__", "ENUCoords_sub", {"self": {"__class__": "ENUCoords", "E": "float", "N": "float", "U": "float"}, "p": {"__class__": "ENUCoords", "E": "float", "N": "float", "U": "float"}}, "object[ENUCoords]", {}),
     ("core/obs_coords.py", "ENUCoords.norm2D", "ENUCoords_norm2D", {"self": {"__class__": "ENUCoords", "E": "float", "N": "float"}}, "float", {}),
     ("core/obs_coords.py", "ENUCoords.distance2DTo", "ENUCoords_distance2DTo", {"self": {"__class__": "ENUCoords", "E": "float", "N": "float", "U": "float"}, "point": {"__class__": "ENUCoords", "E": "float", "N": "float", "U": "float"}}, "float", {}),
+    ("core/obs.py", "Obs.distance2DTo", "Obs_distance2DTo",
+     {"self": {"position": "object[ENUCoords]"}, "obs": {"position": "object[ENUCoords]"}}, "float", {},
+     {"assume_noop": ["Obs.__check_call_geom1"]}),
+    ("algo/analytics.py", "ds", "analytics_ds", {"track": "objlist[Obs]", "i": "int"}, "float", {}),
+    ("algo/analytics.py", "speed", "analytics_speed", {"track": "objlist[Obs]", "i": "int"}, "float", {}, {"imports": {"NAN": "core/utils.py"}}),
     ("core/utils.py", "isnan", "isnan", {"number": "float"}, "bool", {}),
     ("core/utils.py", "co_sum", "co_sum", {"tarray": "list[float]"}, "float", {"somme": "float"}, {"assume_identity": ["listify"]}),
     ("core/utils.py", "co_min", "co_min", {"tarray": "list[float]"}, "float", {}, {"assume_identity": ["listify"]}),
@@ -182,6 +190,50 @@ WHITELIST = [
                "nrow": "int", "ncol": "int"},
       "coord": {"getX()": "float", "getY()": "float"}}, "optional[tuple[int,int]]", {}),
 ]
+
+# RECORD VIEWS: how an object that is only READ (an element of a track's observation list) is seen. Each entry is one
+# DECLARED pure access path (attributes and argument-less accessor calls, e.g. "position", "timestamp.toAbsTime()") with its
+# type; the object is the tuple of these, in this order (an `object[C]` component is the attributes of C in constructor order, a
+# `record[V]` component the components of view V). "__class__" = (file, class) whose methods a method call / `-` on the object
+# is resolved to, statically (ASSUMED: the run-time object is of that class or behaves like it on the declared paths).
+# A parameter of type `objlist[V]` is a list of such objects with the observation-list API of `Track`:
+#   X.getObs(e) / X[e]: element e (Python indexing, IndexError);  X.getFirstObs(): X[0];  X.getLastObs(): X[len - 1];
+#   X.size() / len(X): the length.   (ASSUMED of the run-time object: these are plain list accesses, as in core/track.py.)
+VIEWS = {
+    "Obs": {"__class__": ("core/obs.py", "Obs"), "position": "object[ENUCoords]", "timestamp": "record[AbsTime]"},
+    "AbsTime": {"__class__": ("core/obs_time.py", "ObsTime"), "toAbsTime()": "float"},
+}
+REG = {}    # path -> Unit of the current run (classes and functions are looked up across the whitelisted files)
+
+
+def find_class_unit(cls):
+    """the unique registered unit that defines class `cls` at module level"""
+    hits = [u for u in REG.values() if u.parse() and any(isinstance(n, ast.ClassDef) and n.name == cls for n in u.tree.body)]
+    return hits[0] if len(hits) == 1 else None
+
+
+def view_components(v):
+    """[(path, type)] of view v"""
+    if v not in VIEWS:
+        raise Unsupported("no record view %s" % v)
+    return [(k, parse_ty(t)) for k, t in VIEWS[v].items() if k != "__class__"]
+
+
+def flat_types(t):
+    """leaf types of a value of type t as it is laid out in a tuple"""
+    if isinstance(t, tuple) and t[0] == "Obj":
+        u = find_class_unit(t[1])
+        info = u.ctor_info_local(t[1]) if u is not None else None
+        if info is None:
+            raise Unsupported("class %s has no constructor of the accepted form (in the whitelisted files)" % t[1])
+        return [info[1][f] for f in info[0]]
+    if isinstance(t, tuple) and t[0] == "Rec":
+        out = []
+        for _, ct in view_components(t[1]):
+            out += flat_types(ct)
+        return out
+    return [t]
+
 
 # uninterpreted functions passed as parameters of the generated definition: name -> (arity, result type, Lean type)
 MATH_FUNS = {"sqrt": (1, "F", "α → α"), "sin": (1, "F", "α → α"), "cos": (1, "F", "α → α"), "tan": (1, "F", "α → α"),
@@ -217,6 +269,10 @@ def parse_ty(s):
         return {"float": "F", "int": "I", "bool": "B"}[s]
     if s.startswith("object[") and s.endswith("]"):
         return ("Obj", s[7:-1])
+    if s.startswith("record[") and s.endswith("]"):
+        return ("Rec", s[7:-1])
+    if s.startswith("objlist[") and s.endswith("]"):
+        return ("L", ("Rec", s[8:-1]))
     if s.startswith("list[") and s.endswith("]"):
         return ("L", parse_ty(s[5:-1]))
     if s.startswith("optional[") and s.endswith("]"):
@@ -251,6 +307,9 @@ def lean_ty(t):
         return "(Option %s)" % lean_ty(t[1])
     if t[0] == "T":
         return "(" + " × ".join(lean_ty(x) for x in t[1]) + ")"
+    if t[0] in ("Rec", "Obj"):
+        fl = flat_types(t)
+        return lean_ty(fl[0]) if len(fl) == 1 else "(" + " × ".join(lean_ty(x) for x in fl) + ")"
     raise ValueError(t)
 
 
@@ -261,6 +320,8 @@ def uses_alpha(t):
         return False
     if isinstance(t, tuple) and t[0] == "Obj":
         return True
+    if isinstance(t, tuple) and t[0] == "Rec":
+        return any(uses_alpha(x) for x in flat_types(t))
     if isinstance(t, tuple):
         if t[0] in ("L", "O", "U"):
             return uses_alpha(t[1])
@@ -364,6 +425,7 @@ class FnTranslator:
         self.unit = unit
         self.path, self.pyname, self.lean, params, ret, locs = entry[:6]
         self.opts = entry[6] if len(entry) > 6 else {}
+        self.allow_rec = False
         self.uses_fuel = False   # the function (or one it calls) has a `while` loop: extra parameter `fuel : Nat`
         self.nloop = 0
         # a parameter declared with a dict is an object of which only the listed attributes ("name") and argument-less
@@ -442,6 +504,8 @@ class FnTranslator:
             bad(e, "a string where a value is needed (strings are only accepted as arguments of print)")
         if isinstance(v.ty, tuple) and v.ty[0] == "Obj":
             bad(e, "an object where a value is needed (an object can only be bound to a local name)")
+        if isinstance(v.ty, tuple) and v.ty[0] == "Rec" and not self.allow_rec:
+            bad(e, "a record where a value is needed (a record can only be bound to a local name or passed to a method of its class)")
         return v
 
     def expr_s(self, e, env, binds):
@@ -472,6 +536,13 @@ class FnTranslator:
             if e.id not in env:
                 if e.id not in self.assigned:
                     c = self.unit.constant(e.id)
+                    if c is None and e.id in self.opts.get("imports", {}):
+                        # DECLARED cross-file constant: bound here by exactly one `from … import NAME`, defined in that file
+                        other = self.unit.registry.get(self.opts["imports"][e.id])
+                        bound = [n for n in self.unit.tree.body if isinstance(n, ast.ImportFrom)
+                                 and any(a.name == e.id and a.asname is None for a in n.names)]
+                        if other is not None and other.parse() and len(bound) == 1:
+                            c = other.constant(e.id)
                     if c is not None:
                         b = []
                         v = self.expr(c, {}, b)      # a module constant: literal arithmetic only
@@ -546,6 +617,10 @@ class FnTranslator:
             if all(v.ty in ("F", "I") for v in vs):
                 return Val("[" + ", ".join(self.as_float(x, v) for x, v in zip(e.elts, vs)) + "]", ("L", "F"))
             bad(e, "list display of non-numbers")
+        if isinstance(e, (ast.Attribute, ast.Call, ast.Subscript)):
+            r = self.rec_access(e, env, binds)
+            if r is not None:
+                return r
         if isinstance(e, ast.Subscript):
             v = self.expr(e.value, env, binds)
             k = e.slice
@@ -584,7 +659,13 @@ class FnTranslator:
                 fields = self.records[e.value.id]
                 if e.attr not in fields:
                     bad(e, "attribute %s.%s is not declared in the signature" % (e.value.id, e.attr))
-                return Val(ident(e.value.id + "_" + e.attr), fields[e.attr])
+                ft = fields[e.attr]
+                if isinstance(ft, tuple) and ft[0] == "Obj":
+                    cf = self.unit.ctor_fields(ft[1])
+                    if cf is None:
+                        bad(e, "class %s has no constructor of the accepted form" % ft[1])
+                    return Val("(" + ", ".join(ident(e.value.id + "_" + e.attr + "_" + g) for g in cf) + ")", ft)
+                return Val(ident(e.value.id + "_" + e.attr), ft)
             if isinstance(e.value, ast.Name) and isinstance(env.get(e.value.id), tuple) and env[e.value.id][0] == "Obj":
                 key = e.value.id + "." + e.attr
                 if key not in env:
@@ -608,8 +689,15 @@ class FnTranslator:
         if isinstance(e.op, (ast.Sub, ast.Add)) and self.is_objexpr(e.left, env):
             # operator of the left operand's class (static resolution; __r*__ fallbacks are not in the subset)
             cls, terms = self.obj_terms(e.left, env, binds)
-            callee = self.unit.lookup(cls + "." + ("__sub__" if isinstance(e.op, ast.Sub) else "__add__"), self)
+            callee = self.lookup_method(e, ("Obj", cls), "__sub__" if isinstance(e.op, ast.Sub) else "__add__")
             return self.call_translated(e, callee, [("obj", cls, terms), e.right], env, binds)
+        if isinstance(e.op, (ast.Sub, ast.Add)):
+            rt = self.static_type(e.left, env)
+            if isinstance(rt, tuple) and rt[0] == "Rec":
+                # operator of the class of the record's view (e.g. ObsTime.__sub__ on two timestamps)
+                recv = self.expr_s(e.left, env, binds)
+                callee = self.lookup_method(e, rt, "__sub__" if isinstance(e.op, ast.Sub) else "__add__")
+                return self.call_translated(e, callee, [("rec", recv), e.right], env, binds)
         a = self.expr_s(e.left, env, binds)
         b = self.expr_s(e.right, env, binds)
         if (a.ty == "S") != (b.ty == "S"):
@@ -736,7 +824,133 @@ class FnTranslator:
             return isinstance(env.get(node.id), tuple) and env[node.id][0] == "Obj"
         if isinstance(node, ast.BinOp) and isinstance(node.op, (ast.Sub, ast.Add)):
             return self.is_objexpr(node.left, env)
-        return False
+        t = self.static_type(node, env)
+        return isinstance(t, tuple) and t[0] == "Obj"
+
+    # ---- records (read-only objects seen through a declared VIEW) and observation lists
+    @staticmethod
+    def path_step(node):
+        """(segment, inner node) when node is `inner.attr` or `inner.accessor()`; None otherwise"""
+        if isinstance(node, ast.Attribute):
+            return node.attr, node.value
+        if isinstance(node, ast.Call) and not node.args and not node.keywords and isinstance(node.func, ast.Attribute):
+            return node.func.attr + "()", node.func.value
+        return None
+
+    def objlist_item(self, node, env):
+        """(list node, index node | int) when node is X.getObs(e) / X[e] / X.getFirstObs() / X.getLastObs() on an objlist X"""
+        def is_ol(n):
+            t = env.get(n.id) if isinstance(n, ast.Name) else None
+            return isinstance(t, tuple) and t[0] == "L" and isinstance(t[1], tuple) and t[1][0] == "Rec"
+        if isinstance(node, ast.Call) and isinstance(node.func, ast.Attribute) and not node.keywords and is_ol(node.func.value):
+            if node.func.attr == "getObs" and len(node.args) == 1:
+                return node.func.value, node.args[0]
+            if node.func.attr == "getFirstObs" and not node.args:
+                return node.func.value, 0
+            if node.func.attr == "getLastObs" and not node.args:
+                return node.func.value, -1
+        if isinstance(node, ast.Subscript) and is_ol(node.value) and not isinstance(node.slice, (ast.Slice, ast.Tuple)):
+            return node.value, node.slice
+        return None
+
+    def static_type(self, node, env):
+        """type of an object- / record-valued expression, decided from its syntax and the declarations (None: not one)"""
+        if isinstance(node, ast.Name):
+            t = env.get(node.id)
+            return t if isinstance(t, tuple) and t[0] in ("Rec", "Obj") else None
+        it = self.objlist_item(node, env)
+        if it is not None:
+            return env[it[0].id][1]
+        st = self.path_step(node)
+        if st is None:
+            return None
+        segs, inner = [st[0]], st[1]
+        while True:
+            if isinstance(inner, ast.Name) and env.get(inner.id) == ("R", inner.id):
+                t = self.records[inner.id].get(".".join(reversed(segs)))
+                return t if isinstance(t, tuple) and t[0] in ("Rec", "Obj") else None
+            t = self.static_type(inner, env) if (isinstance(inner, ast.Name) or self.objlist_item(inner, env) is not None) else None
+            if isinstance(t, tuple) and t[0] == "Rec":
+                comp = dict(view_components(t[1])).get(".".join(reversed(segs)))
+                if comp is not None:
+                    return comp if isinstance(comp, tuple) and comp[0] in ("Rec", "Obj") else None
+            st = self.path_step(inner)
+            if st is None:
+                return None
+            segs.append(st[0])
+            inner = st[1]
+
+    def rec_component(self, node, v, path):
+        """component `path` of the record value v (a Val of type ("Rec", view)); None if the path is not declared"""
+        comps = view_components(v.ty[1])
+        n = len(flat_types(v.ty))
+        off = 0
+        for pth, ct in comps:
+            k = len(flat_types(ct))
+            if pth == path:
+                if k == 1:
+                    return Val(tuple_proj(v.term, off, n), ct)
+                return Val("(" + ", ".join(tuple_proj(v.term, off + j, n) for j in range(k)) + ")", ct)
+            off += k
+        return None
+
+    def rec_access(self, e, env, binds):
+        """`root.path` where root is a record-valued expression (a local record, an element of an observation list) and path a
+        DECLARED access path of its view: the component. Returns None when e is not of that form."""
+        it = self.objlist_item(e, env)
+        if it is not None:
+            lst, idx = it
+            lt = env[lst.id]
+            t = self.tmp()
+            if idx == 0:
+                binds.append((t, "(Py.getIdx %s (0 : Int))" % ident(lst.id)))
+            elif idx == -1:
+                binds.append((t, "(Py.getIdx %s ((Py.len %s) - (1 : Int)))" % (ident(lst.id), ident(lst.id))))   # X[X.size() - 1]
+            else:
+                iv = self.expr(idx, env, binds)
+                if iv.ty != "I":
+                    bad(e, "observation index that is not an int")
+                binds.append((t, "(Py.getIdx %s %s)" % (ident(lst.id), iv.term)))
+            return Val(t, lt[1])
+        st = self.path_step(e)
+        if st is None:
+            return None
+        segs, inner = [st[0]], st[1]
+        while True:
+            t = self.static_type(inner, env) if (isinstance(inner, ast.Name) or self.objlist_item(inner, env) is not None) else None
+            if isinstance(t, tuple) and t[0] == "Rec":
+                path = ".".join(reversed(segs))
+                if dict(view_components(t[1])).get(path) is not None:
+                    root = self.expr_s(inner, env, binds) if not isinstance(inner, ast.Name) else Val(ident(inner.id), t)
+                    return self.rec_component(e, root, path)
+            st = self.path_step(inner)
+            if st is None:
+                return None
+            segs.append(st[0])
+            inner = st[1]
+
+    def view_class(self, view):
+        """(unit, class name) the methods of a record of this view are resolved to"""
+        path, cls = VIEWS[view]["__class__"]
+        u = REG.get(path)
+        if u is None or not u.parse():
+            bad(None, "the class of view %s is not in a whitelisted file" % view)
+        return u, cls
+
+    def lookup_method(self, node, ty, name):
+        """the translated method `name` of the class of an object (constructor class) / a record (class of its view)"""
+        if ty[0] == "Rec":
+            u, cls = self.view_class(ty[1])
+        else:
+            cls = ty[1]
+            u = self.unit if (self.unit.parse() and any(isinstance(n, ast.ClassDef) and n.name == cls for n in self.unit.tree.body)) \
+                else find_class_unit(cls)
+            if u is None:
+                bad(node, "class %s is not defined in a whitelisted file" % cls)
+        callee = u.lookup(cls + "." + name, None)
+        if callee is not None and u is not self.unit and module_name(u.path) not in self.unit.imports:
+            self.unit.imports.append(module_name(u.path))
+        return callee
 
     def obj_terms(self, node, env, binds):
         """class and {attribute: Lean term} of an object-valued expression"""
@@ -762,6 +976,27 @@ class FnTranslator:
         args = []
         for a, (pn, pt) in zip(actuals, callee.params.items()):
             if pn in callee.records:
+                if isinstance(a, ast.AST) and not self.is_objexpr(a, env):
+                    rt = self.static_type(a, env)
+                    if isinstance(rt, tuple) and rt[0] == "Rec":
+                        a = ("rec", self.expr_s(a, env, binds))
+                if isinstance(a, tuple) and a[0] == "rec":
+                    # a record passed where the callee declares the attributes / accessors it reads: each must be a declared
+                    # path of the record's view, with the same type
+                    if pn in callee.objclass:
+                        bad(node, "argument %s of %s: a record where an instance of %s is declared" % (pn, callee.pyname, callee.objclass[pn]))
+                    for fld, ft in callee.records[pn].items():
+                        comp = self.rec_component(node, a[1], fld)
+                        if comp is None or comp.ty != ft:
+                            bad(node, "path %s read by %s is not declared (with that type) in view %s" % (fld, callee.pyname, a[1].ty[1]))
+                        if isinstance(ft, tuple) and ft[0] == "Obj":
+                            t = self.tmp()
+                            binds.append((t, "(.ok %s)" % comp.term))
+                            k = len(flat_types(ft))
+                            args.extend(tuple_proj(t, j, k) for j in range(k))
+                        else:
+                            args.append(comp.term)
+                    continue
                 if not (isinstance(a, tuple) and a[0] == "obj"):
                     if isinstance(a, ast.AST) and self.is_objexpr(a, env):
                         cls, terms = self.obj_terms(a, env, binds)
@@ -839,11 +1074,23 @@ class FnTranslator:
                     bad(e, "class %s has no constructor of the accepted form" % ft[1])
                 return Val("(" + ", ".join(ident(f.value.id + "_" + f.attr + "_" + g) for g in cf) + ")", ft)
             return Val(ident(f.value.id + "_" + f.attr), ft)
+        # X.size() on an observation list
+        if isinstance(f, ast.Attribute) and f.attr == "size" and not e.args and isinstance(f.value, ast.Name) \
+                and isinstance(env.get(f.value.id), tuple) and env[f.value.id][0] == "L" \
+                and isinstance(env[f.value.id][1], tuple) and env[f.value.id][1][0] == "Rec":
+            return Val("(Py.len %s)" % ident(f.value.id), "I")
         # method of an object (local object, class-typed parameter, result of an operator), resolved statically by its class
         if isinstance(f, ast.Attribute) and self.is_objexpr(f.value, env):
             cls, terms = self.obj_terms(f.value, env, binds)
-            callee = self.unit.lookup(cls + "." + f.attr, self)
+            callee = self.lookup_method(e, ("Obj", cls), f.attr)
             return self.call_translated(e, callee, [("obj", cls, terms)] + list(e.args), env, binds)
+        # method of a record (an observation seen through its declared view), resolved statically to the class of the view
+        if isinstance(f, ast.Attribute):
+            rt = self.static_type(f.value, env)
+            if isinstance(rt, tuple) and rt[0] == "Rec":
+                recv = self.expr_s(f.value, env, binds)
+                callee = self.lookup_method(e, rt, f.attr)
+                return self.call_translated(e, callee, [("rec", recv)] + list(e.args), env, binds)
         # x.is_integer() on a float
         if isinstance(f, ast.Attribute) and f.attr == "is_integer" and not e.args:
             v = self.expr(f.value, env, binds)
@@ -1207,6 +1454,9 @@ class FnTranslator:
                 else:
                     body = "let %s := %s ++ [%s];\n%s" % (lx, lx, term, self.block(rest, env2, fresh, K))
                 return self.close(binds, body)
+            if isinstance(v, ast.Call) and ast.unparse(v.func) in self.opts.get("assume_noop", ()):
+                # DECLARED in the signature: on the declared argument classes this call returns normally and has no effect
+                return self.block(rest, env, fresh, K)
             if isinstance(v, ast.Call) and isinstance(v.func, ast.Attribute) and v.func.attr == "remove" \
                     and isinstance(v.func.value, ast.Name) and len(v.args) == 1 and not v.keywords:
                 x = v.func.value.id
@@ -1508,6 +1758,13 @@ class Unit:
         return hits[0]
 
     def ctor_info(self, cls):
+        """ctor_info_local of the class in this file, else in the unique whitelisted file that defines it"""
+        if self.parse() and any(isinstance(n, ast.ClassDef) and n.name == cls for n in self.tree.body):
+            return self.ctor_info_local(cls)
+        u = find_class_unit(cls)
+        return u.ctor_info_local(cls) if u is not None else None
+
+    def ctor_info_local(self, cls):
         """(attribute names in parameter order, {attribute: type}, [default expression | None per parameter]) of a class
         of this file whose __init__ is `self.a = p` exactly once for each of its parameters p (any order; docstring
         allowed), possibly wrapped as `if isinstance(<first parameter>, str): <anything> else: <the stores>` (the string
@@ -1644,6 +1901,8 @@ def main():
     registry = {}
     for path, entries in files.items():
         registry[path] = Unit(a.repo, path, entries, registry)
+    REG.clear()
+    REG.update(registry)
     for path, u in registry.items():
         outs[module_name(path) + ".lean"] = u.render()
     if a.print:
